@@ -140,6 +140,52 @@ def replay_file(path):
     return 1 if r["failed"] else 0
 
 
+_CTX = None
+_PROP = None
+
+
+def _worker_init():
+    # forked workers must never clean up the parent's scratch directories
+    import signal
+    signal.signal(signal.SIGTERM, signal.SIG_DFL)
+    del common._scratch_dirs[:]
+
+
+def _run_job(name):
+    """Runs one job (in a forked worker: the parsed MIR is shared copy-on-write)."""
+    ctx, prop = _CTX, _PROP
+    j = JOBS[name]
+    t0 = time.time()
+    try:
+        u = j["fn"](ctx, prop)
+    except (MirError, SolverError, Unsupported) as e:
+        u = dict(status="inconclusive", why="%s: %s" % (type(e).__name__, e), failures=[])
+    except Exception as e:  # an internal error of the checker is never a verdict
+        u = dict(status="inconclusive", why="internal error: %s" % traceback.format_exc()[-1500:], failures=[])
+    u.setdefault("unit", j["name"])
+    u.setdefault("engine", "mirsym")
+    u.setdefault("props", j["props"])
+    u.setdefault("functions", j["functions"])
+    u.setdefault("bounds", j["bounds"])
+    u.setdefault("failures", [])
+    u.setdefault("why", "")
+    u.setdefault("witness", False)
+    u.setdefault("obligations", 0)
+    u.setdefault("discharged", 0)
+    u.setdefault("queries", 0)
+    u["wall_s"] = round(time.time() - t0, 2)
+    ev = dict(unit=u["unit"], engine="mirsym (MIR -> SMT-LIB2, z3 + cvc5 cross-check)", status=u["status"],
+              why=u["why"], bounds=u["bounds"], obligations=u["obligations"], discharged=u["discharged"],
+              queries=u["queries"], solver_s=round(u.get("solver_s", 0), 2), wall_s=u["wall_s"],
+              mir_dump_s=round(ctx.mir_s, 1))
+    for k in ("paths", "forks", "cross_check", "models_used", "callees", "planted_mutants", "notes",
+              "model_validation"):
+        if k in u:
+            ev[k] = u[k]
+    u["evidence"] = ev
+    return u
+
+
 # ------------------------------------------------------------------------------------------------
 def run(prop, tier, logdir, only=None):
     from . import e2_jobs  # noqa: F401  (registers jobs)
@@ -160,36 +206,17 @@ def run(prop, tier, logdir, only=None):
                                   why="MIR dump/parse failed: %s" % e, failures=[], functions=j["functions"],
                                   bounds=j["bounds"]))
             return units
-        for j in todo:
-            t0 = time.time()
-            try:
-                u = j["fn"](ctx, prop)
-            except (MirError, SolverError, Unsupported) as e:
-                u = dict(status="inconclusive", why="%s: %s" % (type(e).__name__, e), failures=[])
-            except Exception as e:  # an internal error of the checker is never a verdict
-                u = dict(status="inconclusive", why="internal error: %s" % traceback.format_exc()[-1500:], failures=[])
-            u.setdefault("unit", j["name"])
-            u.setdefault("engine", "mirsym")
-            u.setdefault("props", j["props"])
-            u.setdefault("functions", j["functions"])
-            u.setdefault("bounds", j["bounds"])
-            u.setdefault("failures", [])
-            u.setdefault("why", "")
-            u.setdefault("witness", False)
-            u.setdefault("obligations", 0)
-            u.setdefault("discharged", 0)
-            u.setdefault("queries", 0)
-            u["wall_s"] = round(time.time() - t0, 2)
-            ev = dict(unit=u["unit"], engine="mirsym (MIR -> SMT-LIB2, z3 + cvc5 cross-check)", status=u["status"],
-                      why=u["why"], bounds=u["bounds"], obligations=u["obligations"], discharged=u["discharged"],
-                      queries=u["queries"], solver_s=round(u.get("solver_s", 0), 2), wall_s=u["wall_s"],
-                      mir_dump_s=round(ctx.mir_s, 1))
-            for k in ("paths", "forks", "cross_check", "models_used", "callees", "planted_mutants", "notes",
-                      "model_validation"):
-                if k in u:
-                    ev[k] = u[k]
-            u["evidence"] = ev
-            units.append(u)
+        import multiprocessing as mp
+        global _CTX, _PROP
+        _CTX, _PROP = ctx, prop
+        todo.sort(key=lambda j: -j.get("weight", 1))
+        workers = min(len(todo), int(os.environ.get("VERIF_E2_JOBS", "6")))
+        if workers <= 1:
+            res = [_run_job(j["name"]) for j in todo]
+        else:
+            with mp.get_context("fork").Pool(workers, initializer=_worker_init) as pool:
+                res = pool.map(_run_job, [j["name"] for j in todo], chunksize=1)
+        units.extend(res)
     finally:
         ctx.close()
     return units
